@@ -13,6 +13,8 @@ ENC_CH = [1, 2, 3, 6, 7, 255]
 ENC_RATES = [1, 2, 100, 4000, 7999, 8000, 11025, 16000, 22050, 32000, 44100, 48000, 64000, 96000, 192000, 200000]   # >= one per template band + both extremes
 ENC_Q = ['-0.100000001', '0.0498999991', '0.5', '1']
 ENC_NS = [0, 1, 4097]
+SIG_RATES = [4000, 8000, 11025, 16000, 22050, 32000, 44100, 48000, 96000]     # one per template band (44100 and 48000: 5.1 has its own template there)
+SIG_Q = ['-0.100000001', '0.5', '1']
 SPLITS = {L: [(a, b, L - a - b) for a in range(L + 1) for b in range(L + 1 - a)] for L in range(4)}
 
 
@@ -131,6 +133,10 @@ def desc_to_case(desc, T, pl=2, ns=4097):
     """tuple description printed by the harness -> a case line that executes exactly that tuple"""
     f = desc.split(':')
     kv = dict(x.split('=', 1) for x in f if '=' in x)
+    if 'pl' in kv and f[0] in ('vbr', 'managed'):      # a tuple of the signal phase: explicit-value case line
+        if f[0] == 'vbr':
+            return 'S 0 %s %s %s %d %s %d' % (f[1][1:], kv['ch'], kv['rate'], T['quals'].index(kv['q']), kv['pl'], ns)
+        return 'S 1 %s %s %s %s %s %s %s %d' % (f[1][1:], kv['ch'], kv['rate'], kv['max'], kv['nom'], kv['min'], kv['pl'], ns)
     if f[0] == 'vbr':
         return 'G %s %s %d %d %d %d' % (f[1][1:], kv['ch'], T['rates'].index(int(kv['rate'])), T['quals'].index(kv['q']), pl, ns)
     if f[0] == 'managed':
@@ -192,7 +198,8 @@ def run(tier):
             for k, v in r['succ'].items():
                 succ[k] = succ.get(k, 0) + v
             for k, v in r['enc'].items():
-                enc[(phase, c.split(' ')[2] if phase != 'ctl' else 'b' + c.split(' ')[1], k)] = enc.get((phase, c.split(' ')[2] if phase != 'ctl' else 'b' + c.split(' ')[1], k), 0) + v
+                ek = (phase, ('b' + c.split(' ')[1]) if phase == 'ctl' else (c.split(' ')[3] if c[0] == 'S' else c.split(' ')[2]), k)
+                enc[ek] = enc.get(ek, 0) + v
             for k, v in r['leak'].items():
                 leaks[k] = v
             for kind, desc in r['bad']:
@@ -259,6 +266,24 @@ def run(tier):
                     cases.append('M %d %d %d -1 2 %d' % (path, ch, mi, ns))
                     plns.append((2, ns))
     phase('managed', cases, plns, 'c15m', reserve=600, always=len(cases) if tier == 'quick' else 0)
+    # ------------------------------------------------------------------ 3b. signal alphabet: every template class x every signal
+    # class = rate band x {mono, stereo, 5.1} x {low q, mid q, high q, managed}; signals = over-full-scale sines, square, level sweep, FLT_MAX/inf/NaN bursts
+    cases, plns = [], []
+    sig_classes = 0
+    for path in ((0,) if tier == 'quick' else (0, 1)):
+        for rate in SIG_RATES:
+            for ch in (1, 2, 6):
+                modes = [('q', quals.index(q)) for q in SIG_Q] + [('m', (20000 if rate < 26000 else 40000) * ch)]
+                for kind, val in modes:
+                    sig_classes += 1
+                    for nsx in ((4097,) if tier == 'quick' else (4097, 20000)):
+                        for sgi in range(len(T['signals'])):
+                            if kind == 'q':
+                                cases.append('S 0 %d %d %d %d %d %d' % (path, ch, rate, val, 10 + sgi, nsx))
+                            else:
+                                cases.append('S 1 %d %d %d -1 %d -1 %d %d' % (path, ch, rate, val, 10 + sgi, nsx))
+                            plns.append((10 + sgi, nsx))
+    phase('signals', cases, plns, 'c15x', reserve=600, always=len(cases) if tier == 'quick' else 0)
     # ------------------------------------------------------------------ 4. ctl histories
     states = {}      # (base, hash) -> (len, split, ops tuple, r2)
     nhist = 0
@@ -354,8 +379,11 @@ def run(tier):
         lst.sort(key=lambda x: (len(x[0]), x[0]))
         desc, case, err = lst[0]
         f = case.split(' ')
-        pl = int(f[5]) if f[0] in 'GM' else (2 if f[5] == '1' else 0)
-        ns = int(f[6]) if f[0] in 'GM' else 1100
+        if f[0] == 'S':
+            pl, ns = (int(f[6]), int(f[7])) if f[1] == '0' else (int(f[8]), int(f[9]))
+        else:
+            pl = int(f[5]) if f[0] in 'GM' else (2 if f[5] == '1' else 0)
+            ns = int(f[6]) if f[0] in 'GM' else 1100
         rc = desc_to_case(desc, T, pl, ns) if desc else case
         key = 'sanitizer:%s:%s' % (site, cp)
         if '_vp_psy_init' in site and 'index_17_out_of_bounds' in site:
@@ -411,6 +439,7 @@ def run(tier):
         e['bytes'].add(v)
     for e in leak_classes.values():
         e['bytes'] = sorted(e['bytes'])[:6]
+    sig_managed = {k: v for (p, k), v in cls_all.items() if p == 'signals' and k.startswith('M:') and ':0:' in k and not k.endswith(':-')}
     distinct = len([1 for (phase, k) in cls_all if k != 'SKIPPED'])
     chk.cov.update({
         'distinct_nontrivial': distinct,
@@ -426,6 +455,9 @@ def run(tier):
         'successful_channel_template_pairs': len(succ_pairs),
         'return_codes_by_function': {k: sorted(v) for k, v in sorted(fn_codes.items())},
         'ctl_return_codes_by_request_hex': {k: sorted(v) for k, v in sorted(ctl_codes.items())},
+        'signal_phase': {'signals': T['signals'], 'template_classes_requested': sig_classes, 'samples_per_encode': '4097' if tier == 'quick' else '4097 and 20000',
+                         'encodes_by_signal': {T['signals'][int(k.split('/')[0][2:]) - 10] + '/' + k.split('/')[2]: sum(v for (p, c, kk), v in enc_by.items() if p == 'signals' and kk == k)
+                                               for k in sorted({kk for (p, c, kk) in enc_by if p == 'signals'})}},
         'encodes': {'%s/ch%s/%s' % k: v for k, v in sorted(enc_by.items()) if k[1] in ('255', '6', '2', 'b0', 'b1', 'b7')},
         'leak_observations(C13, not judged here)': leak_classes,
         'phase_wall_s': walls,
@@ -456,6 +488,10 @@ def run(tier):
         chk.guard(any(k.startswith('255/V/') for k in succ) and enc_by.get(('enc', '255', 'pl2/ns4097/packets'), 0) > 0, '255-channel set-up encoded 4097 samples and produced packets')
         chk.guard(any('/M/' in k for k in succ) and any('/V/' in k for k in succ), 'managed and VBR set-ups both succeeded')
         chk.guard(any(p == 'managed' and k.endswith('/packets') for (p, c, k) in enc_by), 'a managed set-up was encoded and produced packets')
+        nsig = len(T['signals'])
+        sig_ok = {i: sum(v for (p, c, k), v in enc_by.items() if p == 'signals' and k.startswith('pl%d/' % (10 + i)) and k.endswith('/packets')) for i in range(nsig)}
+        chk.guard(all(sig_ok[i] >= 60 for i in range(nsig)), 'every signal of the alphabet was encoded (with packets) from >= 60 successfully set-up template classes: %s' % sig_ok)
+        chk.guard(any(v for (kk, v) in sig_managed.items()), 'the signal alphabet was encoded from managed set-ups as well')
         chk.guard(all(any(p == 'enc' and k.startswith('pl2/ns%d/' % ns) for (p, c, k) in enc_by) for ns in ENC_NS) and any(p == 'enc' and k == 'pl2/ns4097/packets' for (p, c, k) in enc_by), 'encodes of 0, 1 and 4097 samples ran')
         chk.guard(set_after_init_einval > 0 and get_after_init_ok > 0, 'set requests after setup_init were refused and get requests answered')
         chk.guard(len(order) >= 20 and states_encoded >= 20, 'at least 20 distinct post-ctl set-up states were encoded from')
